@@ -19,7 +19,9 @@ Representation choices (checked by the correspondence stream, see props/c14.py):
   `[done..]` the list `rest`;
 * `sort_unstable_by_key` in `qs_optimize` only permutes the coordinate list; the model keeps the
   unsorted list (`optMul_perm` in Lemmas/Gf2Sparse.lean: the product does not depend on the order);
-* the block product `&Block * &Block` (rotation trick) is modelled by its defining sum.
+* the block product `&Block * &Block` is modelled twice: `blockDotRot` follows the code (rotation
+  trick, transposition), `blockDot` is its defining sum, used by `optMul`; they are equal on 64-bit
+  words (`blockDotRot_eq` in Lemmas/Gf2Rot.lean).
 -/
 namespace Ymq.Gf2
 
@@ -174,6 +176,29 @@ def blockDot (x y : List Nat) : Option (List Nat) :=
   if x.length = y.length then
     some ((List.range 64).map (fun i =>
       (List.zip x y).foldl (fun acc p => if p.1.testBit i then acc ^^^ p.2 else acc) 0))
+  else none                                                -- assert_eq!
+
+/-! ### the rotation trick of `impl Mul<&Block> for &Block` (word level) -/
+
+/-- `u64::rotate_right(r)` for a 64-bit word -/
+def rotr64 (y r : Nat) : Nat := ((y >>> (r % 64)) ||| (y <<< (64 - r % 64))) % 2 ^ 64
+
+/-- `u64::rotate_left(r)` for a 64-bit word -/
+def rotl64 (y r : Nat) : Nat := ((y <<< (r % 64)) ||| (y >>> (64 - r % 64))) % 2 ^ 64
+
+/-- `SmallMat::transpose`: bit `j` of row `i` is bit `i` of row `j` -/
+def transposeW (m : List Nat) : List Nat :=
+  (List.range 64).map (fun i =>
+    (List.range 64).foldl (fun row j => if (m.getD j 0).testBit i then row ||| (1 <<< j) else row) 0)
+
+/-- `&Block * &Block` as the code computes it: `m[r] ^= x & y.rotate_right(r)` over the rows,
+transposition, then row `r` rotated left by `r`. -/
+def blockDotRot (x y : List Nat) : Option (List Nat) :=
+  if x.length = y.length then
+    let m := (List.range 64).map (fun r =>
+      (List.zip x y).foldl (fun acc p => acc ^^^ (p.1 &&& rotr64 p.2 r)) 0)
+    let mt := transposeW m
+    some ((List.range 64).map (fun r => rotl64 (mt.getD r 0) r))
   else none                                                -- assert_eq!
 
 /-- `out[i] ^= rhs[j]` for every coordinate; `none` = index out of range -/
